@@ -1020,9 +1020,39 @@ func validatorAgrees(b []byte, decodeErr error) (bool, string) {
 	return true, ""
 }
 
+// heldEnc: the bytes the last few Encode calls returned, with private copies.  What Encode hands out is the caller's
+// (libocr keeps an observation while it is being sent): later Encode calls must leave it alone.
+var heldEnc [][2][]byte
+
+func holdEncoded(b []byte) {
+	heldEnc = append(heldEnc, [2][]byte{b, append([]byte(nil), b...)})
+	if len(heldEnc) > 4 {
+		heldEnc = heldEnc[1:]
+	}
+}
+
+func heldEncodedIntact() bool {
+	for _, h := range heldEnc {
+		if !bytes.Equal(h[0], h[1]) {
+			return false
+		}
+	}
+	return true
+}
+
 func runCase(c *c15Case) (encoded []byte) {
 	wg := wgFor(c.WidPrefix)
 	c.Observed = observedG{}
+	defer func() {
+		if encoded != nil {
+			if !heldEncodedIntact() {
+				c.Observed.Code, c.Observed.Same = 95, false
+				c.Observed.ErrText = "bytes returned by an earlier Encode changed when this value was encoded"
+				heldEnc = nil
+			}
+			holdEncoded(encoded)
+		}
+	}()
 	defer func() {
 		if c.Observed.Code == 0 && c.Observed.Same && !keptStillEqual() {
 			c.Observed.Same = false
